@@ -201,3 +201,8 @@ func (v *VerifStores) VerifPutCoin(wid string, op wire.OutPoint, height uint64, 
 		v.Root.Sub(bucketUnminedInputs).Set(canonicalOutPoint(&op.Hash, op.Index), pendingSpender[:])
 	}
 }
+
+// VerifLedgerCounts: number of mined credits, unspent entries, transaction records and block records stored.
+func (v *VerifStores) VerifLedgerCounts() (credits, unspent, txs, blocks int) {
+	return len(v.Root.Sub(bucketCredits).Ents), len(v.Root.Sub(bucketUnspent).Ents), len(v.Root.Sub(bucketTxRecords).Ents), len(v.Root.Sub(bucketBlocks).Ents)
+}
